@@ -227,7 +227,7 @@ def x_setcookie(i):
     cover("setcookie-" + out.split(":")[0])
 
 
-def x_frame(T, api, ending, fire=False, skip=False):
+def x_frame(T, api, ending, fire=False, skip=False, nonblocking=False):
     """arbitrary T-byte frame-phase stream followed by end of stream or silence (timeout); the call is retried after a
     timeout like an application would; allowed outcomes: a result, or protocol / payload / connection-closed / timeout"""
     quiet_logging()
@@ -235,6 +235,8 @@ def x_frame(T, api, ending, fire=False, skip=False):
                                        WebSocketProtocolException, WebSocketTimeoutException)
     stream = sx.sym_bytes("s", T)
     sock = FakeSock([stream] + (["eof"] if ending == "eof" else ["timeout", "timeout", "eof"]))
+    if nonblocking:
+        sock.timeout = 0  # a non-blocking transport (select-driven application): end of stream is still end of stream
     ws = new_ws(sock, get_mask_key=KeySource([bytes(4)] * 64), fire_cont_frame=fire, skip_utf8_validation=skip)
     outcomes = []
     for attempt in range(T + 4):
@@ -341,8 +343,10 @@ def obligations(tier):
         Obligation("X-resume", x_resume, [dict(form=f, masked=m) for f in (16, 64) for m in (0, 1)],
                    bounds="16-/64-bit length frames with one receive timeout (silence) after every possible number of header bytes, then the rest",
                    must_cover=["resumed"], kernel=["frame_buffer.recv_frame", "recv_length", "recv_mask"]),
-        Obligation("X-frame-cfg", x_frame, [dict(T=t, api="recv", ending="eof", fire=f, skip=s) for t in (3, 4, 5) for (f, s) in ((True, False), (False, True), (True, True))],
-                   bounds="EVERY frame-phase stream of 3..5 bytes through recv() with per-fragment delivery and/or UTF-8 validation switched off",
+        Obligation("X-frame-cfg", x_frame, [dict(T=t, api="recv", ending="eof", fire=f, skip=s) for t in (3, 4, 5) for (f, s) in ((True, False), (False, True), (True, True))] +
+                   [dict(T=t, api=a, ending="eof", nonblocking=True) for t in (0, 2, 3) for a in ("recv", "recv_data_frame")],
+                   bounds="EVERY frame-phase stream of 3..5 bytes through recv() with per-fragment delivery and/or UTF-8 validation switched off; "
+                          "every stream of 0, 2, 3 bytes then end of stream on a NON-BLOCKING transport (timeout 0)",
                    must_cover=["frame-closed"], budget_s=1800, kernel=["WebSocket.recv", "continuous_frame.extract"]),
         Obligation("X-location", x_location, [dict(i=i) for i in range(len(LOCATIONS))], bounds="%d Location values (garbage, foreign scheme, bad port, valid) on a 302 response" % len(LOCATIONS),
                    must_cover=["location"], step_budget=100000, kernel=["WebSocket.connect (redirect)", "_url.parse_url"]),
